@@ -134,12 +134,14 @@ def run_deriv(method, n, order):
                 if same:
                     solve.fact(tg + 'N:%s-at-x0-unaffected-by-the-other-elements' % nm, True, note='identical terms')
                 else:
-                    solve.prove_lin(tg + 'N:%s-at-x0-unaffected-by-the-other-elements' % nm, z3.And(*[u == v for u, v in zip(ta, tb)]) if len(ta) == len(tb) else z3.BoolVal(False), [])
+                    if not (len(ta) == len(tb) and solve.refute_equal(tg + 'N:%s-at-x0-unaffected-by-the-other-elements' % nm, ta, tb, sorted(free_syms(*(ta + tb))))):
+                        solve.prove_lin(tg + 'N:%s-at-x0-unaffected-by-the-other-elements' % nm, z3.And(*[u == v for u, v in zip(ta, tb)]) if len(ta) == len(tb) else z3.BoolVal(False), [])
                 same = len(ta) == len(s_) and all(u.eq(v) for u, v in zip(ta, s_))
                 if same:
                     solve.fact(tg + 'S:%s-at-x0==scalar-run' % nm, True, note='identical terms')
                 else:
-                    solve.prove_lin(tg + 'S:%s-at-x0==scalar-run' % nm, z3.And(*[u == v for u, v in zip(ta, s_)]) if len(ta) == len(s_) else z3.BoolVal(False), [])
+                    if not (len(ta) == len(s_) and solve.refute_equal(tg + 'S:%s-at-x0==scalar-run' % nm, ta, s_, sorted(free_syms(*(ta + s_))))):
+                        solve.prove_lin(tg + 'S:%s-at-x0==scalar-run' % nm, z3.And(*[u == v for u, v in zip(ta, s_)]) if len(ta) == len(s_) else z3.BoolVal(False), [])
             # own-element dependence for every position
             for idx in np.ndindex(shape):
                 own = str(lift(xa[idx]).t)
